@@ -27,3 +27,44 @@ package lastgersync
 //@   ensures[no-block-skipped] !scanGap
 //@   loop 0 invariant !scanGap && scanNext == fromBlock && d != nil && d.EVMDownloaderImplementation != nil
 //@   loop 1 invariant !scanGap && d != nil && d.EVMDownloaderImplementation != nil && 0 <= rangeindex + 1
+
+// ---- the injected-GER table (C16) as ghost maps keyed by L2 block (block_num is the PRIMARY KEY): gerHas[b] says a
+// row exists for block b, gerRootAt / gerIdxAt are its columns. SQL semantics assumed (A5) for the pinned statements;
+// each mutating function may issue only the statement its assumed effect was written for.
+//@ ghost var gerHas map[int]bool
+//@ ghost var gerRootAt map[int]Hash
+//@ ghost var gerIdxAt map[int]int
+
+//@ extern github.com/russross/meddler.Insert@lastgersync.(*processor).handleGERInsertion (db, table, src)
+//@   requires typeIs(src, *gerInfoWithBlockNum)
+//@   modifies gerHas, gerRootAt, gerIdxAt, stmtFail
+//@   ensures stmtFail == old(stmtFail) + ite(result == nil, 0, 1)
+//@   ensures result == nil ==> !old(gerHas)[cast(src, *gerInfoWithBlockNum).BlockNum] && gerHas == upd(old(gerHas), cast(src, *gerInfoWithBlockNum).BlockNum, true) && gerRootAt == upd(old(gerRootAt), cast(src, *gerInfoWithBlockNum).BlockNum, cast(src, *gerInfoWithBlockNum).GlobalExitRoot) && gerIdxAt == upd(old(gerIdxAt), cast(src, *gerInfoWithBlockNum).BlockNum, cast(src, *gerInfoWithBlockNum).L1InfoTreeIndex)
+//@   ensures result != nil ==> gerHas == old(gerHas) && gerRootAt == old(gerRootAt) && gerIdxAt == old(gerIdxAt)
+
+//@ func (*processor) handleGERInsertion
+//@   props C16 C04
+//@   nocalls
+//@   allowcalls Insert Errorf
+//@   requires gerInfo != nil
+//@   modifies gerHas, gerRootAt, gerIdxAt, stmtFail
+//@   ensures[fault-counted] stmtFail == old(stmtFail) + ite(result == nil, 0, 1)
+//@   ensures[adds-exactly-this-row] result == nil ==> gerHas == upd(old(gerHas), gerInfo.BlockNum, true) && gerRootAt == upd(old(gerRootAt), gerInfo.BlockNum, gerInfo.GlobalExitRoot) && gerIdxAt == upd(old(gerIdxAt), gerInfo.BlockNum, gerInfo.L1InfoTreeIndex)
+//@   ensures[failure-changes-nothing] result != nil ==> gerHas == old(gerHas) && gerRootAt == old(gerRootAt) && gerIdxAt == old(gerIdxAt)
+
+//@ interface github.com/agglayer/aggkit/db/types.Txer.Exec@lastgersync.(*processor).handleGEREvent (self, query, args)
+//@   requires self != nil
+//@   modifies gerHas, stmtFail
+//@   ensures stmtFail == old(stmtFail) + ite(result1 == nil, 0, 1)
+//@   ensures result1 == nil ==> forall(b, int, gerHas[b] == (old(gerHas)[b] && gerRootAt[b] != caller.event.GlobalExitRoot))
+//@   ensures result1 != nil ==> gerHas == old(gerHas)
+
+//@ func (p *processor) handleGEREvent
+//@   props C16 C04
+//@   sqltext "DELETE FROM imported_global_exit_root WHERE global_exit_root = $1;"
+//@   requires tx != nil && event != nil
+//@   modifies gerHas, gerRootAt, gerIdxAt, stmtFail
+//@   ensures[fault-counted] stmtFail == old(stmtFail) + ite(result == nil, 0, 1)
+//@   ensures[removal-deletes-every-row-of-that-root] (result == nil && event.IsRemove) ==> forall(b, int, gerHas[b] == (old(gerHas)[b] && old(gerRootAt)[b] != event.GlobalExitRoot)) && gerRootAt == old(gerRootAt) && gerIdxAt == old(gerIdxAt)
+//@   ensures[insertion-adds-exactly-this-row] (result == nil && !event.IsRemove) ==> gerHas == upd(old(gerHas), event.BlockNum, true) && gerRootAt == upd(old(gerRootAt), event.BlockNum, event.GlobalExitRoot) && gerIdxAt == upd(old(gerIdxAt), event.BlockNum, event.L1InfoTreeIndex)
+//@   ensures[failure-changes-nothing] result != nil ==> gerHas == old(gerHas) && gerRootAt == old(gerRootAt) && gerIdxAt == old(gerIdxAt)
